@@ -161,7 +161,8 @@ def run(ctx):
             ctx.count("workspaces")
             if i < n_proc_ws:
                 proot = ctx.scratch(f"pw{i}")
-                pws = gen.gen_workspace(proot, ctx.rng, venv=(i % 2 == 0), depth=ctx.rng.randint(2, 4), n_names=4)
+                pws = gen.gen_workspace(proot, ctx.rng, venv=(i % 2 == 0), depth=ctx.rng.randint(2, 4), n_names=4,
+                                        ws_plugin=(True if i == 0 else None), two_entry=(True if i % 2 == 0 else None))
                 materialize(pws)
                 processes(ctx, pws, set(), set())
                 shutil.rmtree(proot, ignore_errors=True)
